@@ -26,6 +26,9 @@ pub(crate) mod thread {
 
         /// number of `spawn` calls so far
         pub static SPAWNED: AtomicUsize = AtomicUsize::new(0);
+        /// spawn calls beyond this number are counted but their closure is not run (a harness sets it
+        /// so that an unexpected chain of respawns ends and can be reported by its own postcondition)
+        pub static SPAWN_LIMIT: AtomicUsize = AtomicUsize::new(usize::MAX);
 
         pub struct JoinHandle<T>(PhantomData<T>);
 
@@ -34,8 +37,10 @@ pub(crate) mod thread {
             F: FnOnce() -> T + Send + 'static,
             T: Send + 'static,
         {
-            SPAWNED.fetch_add(1, Ordering::SeqCst);
-            let _ = f();
+            let n = SPAWNED.fetch_add(1, Ordering::SeqCst);
+            if n < SPAWN_LIMIT.load(Ordering::SeqCst) {
+                let _ = f();
+            }
             JoinHandle(PhantomData)
         }
 
